@@ -651,6 +651,70 @@ pub trait IsOption {}
 
 impl<T> IsOption for Option<T> {}
 
+/// Removes one pair of parentheses enclosing the whole of `ts`, if there is one. Used by
+/// `#[derive(TS)]` for a struct consisting of a single flattened field.
+///
+/// `(A | B) & (C | D)` also starts with `(` and ends with `)` and is left alone. Parentheses
+/// inside string literals and comments do not count.
+#[doc(hidden)]
+pub fn strip_enclosing_parens(ts: &str) -> &str {
+    #[derive(Clone, Copy, PartialEq)]
+    enum State {
+        Code,
+        Slash,
+        Comment,
+        CommentStar,
+        Str(char),
+        StrEscape(char),
+    }
+
+    let Some(inner) = ts.strip_prefix('(').and_then(|ts| ts.strip_suffix(')')) else {
+        return ts;
+    };
+
+    let mut depth = 1usize;
+    let mut state = State::Code;
+    for c in inner.chars() {
+        state = match state {
+            State::Code | State::Slash => match c {
+                '"' | '\'' | '`' => State::Str(c),
+                '(' => {
+                    depth += 1;
+                    State::Code
+                }
+                ')' => {
+                    if depth <= 1 {
+                        // the first parenthesis is closed before the end
+                        return ts;
+                    }
+                    depth -= 1;
+                    State::Code
+                }
+                '/' => State::Slash,
+                '*' if state == State::Slash => State::Comment,
+                _ => State::Code,
+            },
+            State::Comment | State::CommentStar => match c {
+                '*' => State::CommentStar,
+                '/' if state == State::CommentStar => State::Code,
+                _ => State::Comment,
+            },
+            State::Str(quote) => match c {
+                '\\' => State::StrEscape(quote),
+                _ if c == quote => State::Code,
+                _ => State::Str(quote),
+            },
+            State::StrEscape(quote) => State::Str(quote),
+        };
+    }
+
+    if depth == 1 {
+        inner
+    } else {
+        ts
+    }
+}
+
 /// Writes `s` as a TypeScript string literal. Used by `#[derive(TS)]` for variant names, tags
 /// and contents.
 #[doc(hidden)]
